@@ -1,6 +1,23 @@
-"""C16: Max-min and BMF allocations are fair. See DESIGN.md section 4 (C16), checks/lmm_check.py and checks/lmm_common.py."""
+"""C16: Max-min and BMF allocations are fair.  See DESIGN.md section 4 (C16), checks/lmm_check.py (pipeline) and checks/lmm_common.py.
+
+What is decided: after every solve TLC evaluates, on the values of the real systems, Lmm!MaxMinFairI (maxmin kinds: every
+consuming variable below its bound has a saturated constraint on which value * penalty is maximal), Lmm!BmfFairI (bmf: same with
+the share max_weight * penalty * value, as BmfSolver::is_bmf defines it; the explicit error of the solver is accepted and counted)
+and, where no FATPIPE constraint is consumed (unique allocation) and the implementation made the generator's staging choices,
+equality with the exact rational allocation MaxMin(sys) printed by the generator (maxmin selective, full, fresh).
+M: Lmm!MaxMinFairR holds for MaxMin(sys) in every state of the small-scope exploration of Lmm.tla.
+
+Mutations tried (scratch worktree, quick tier with VERIF_LMM_SCALE=0.4):
+  M3  maxmin_solve ignores the bound of a variable                                             caught (Exact on mmsel, mmfull, fresh; exit 1)
+  M4  the FATPIPE max rule forgotten when the usage of a constraint is initialised (under-allocation, still feasible)
+                                                                                               caught (MaxMinFair on mmsel, mmfull; exit 1)
+With the seven proposed fixes applied the check reports no rejection at all.
+"""
 import lmm_check, lmm_common
 LEVEL = "model_checking"
+META = {"text": 'Same histories and runs as C15; TLC evaluates the max-min fairness characterisation (MaxMinFair), the BMF characterisation (BmfFair, explicit solver error accepted) and, where the allocation is unique, equality with the exact rational weighted progressive filling MaxMin(sys) of the specification; MaxMin(sys) itself is model-checked max-min fair at small scope.',
+        "note": 'Trusted: TLC; the driver harness/lmm_driver.cpp (replays the operations through the public API of lmm::System, reads values back with get_value / get_penalty / get_concurrency_slack, scales doubles by 1e5 and rounds); tolerance = 1e5 * precision/work-amount per unit of magnitude + rounding. Conformance holds for the histories replayed (<= 3 constraints x 7 variables x 26 operations in the quick tier, <= 5 x 10 x 60 in the thorough tier; not the 12 x 20 systems of the statement), exhaustiveness only for Lmm.tla within the stated scope and for the 2-operation extensions of the base systems. In-situ dumps of simulations (hook H2) are not used. TLC -coverage cannot be used on these modules (it runs out of memory building its cost model): vacuity is guarded by measured operation counts. Rejections in the situations recorded in KNOWN_FINDINGS.jsonl (cause tags computed by TLC on the abstract system that follows the implementation) are reported as known findings; a mutation that only shows in those situations would be masked.',
+        "technique": 'TLC model checking of spec/lmm/Lmm.tla (LmmGen, small scope) + TLC-generated histories replayed into the real lmm::System classes (harness/lmm_driver.cpp) + TLC evaluation of the predicates on the logged values (LmmTrace.tla)'}
 DRIVERS = lmm_common.DRIVERS
 
 
